@@ -219,9 +219,11 @@ theorem simplifyCore_fun (me : Event) (h : ∀ p ∈ me, selfIntervened p.1 = fa
     obtain ⟨q, hq, hk⟩ := removeRepeated_key _ p hp
     rw [← hk]; exact ((hsplit₂ q).1 hq).2
   have hred := reduceReflexive_plain _ hreflkeys
-  have hredkeys : ∀ p ∈ reducePlain (removeRepeated (splitReflexive me).1) [], p.1.isCf = false := by
+  have hredkeys : ∀ p ∈ dropNone (reducePlain (removeRepeated (splitReflexive me).1) []), p.1.isCf = false := by
     intro p hp
-    rcases reducePlain_key _ _ p hp with ⟨q, hq, _⟩ | ⟨q, hq, hk⟩
+    obtain ⟨p', hp', hk'⟩ := dropNone_key _ p hp
+    rw [← hk']
+    rcases reducePlain_key _ _ p' hp' with ⟨q, hq, _⟩ | ⟨q, hq, hk⟩
     · cases hq
     · rw [← hk]; exact hreflkeys q hq
   unfold simplifyCore at hc
@@ -235,7 +237,7 @@ theorem simplifyCore_fun (me : Event) (h : ∀ p ∈ me, selfIntervened p.1 = fa
     | false =>
       simp only [Bool.false_eq_true, ↓reduceIte] at hc
       cases h2 : anyInconsistent (removeRepeated (splitReflexive me).2)
-          (reducePlain (removeRepeated (splitReflexive me).1) []) with
+          (dropNone (reducePlain (removeRepeated (splitReflexive me).1) [])) with
       | error e => rw [h2] at hc; cases hc
       | ok b2 =>
         rw [h2] at hc
@@ -247,7 +249,7 @@ theorem simplifyCore_fun (me : Event) (h : ∀ p ∈ me, selfIntervened p.1 = fa
           | error e => rw [ha] at hc; cases hc
           | ok a =>
             rw [ha] at hc
-            cases hb : popAll (reducePlain (removeRepeated (splitReflexive me).1) []) with
+            cases hb : popAll (dropNone (reducePlain (removeRepeated (splitReflexive me).1) [])) with
             | error e => rw [hb] at hc; cases hc
             | ok b =>
               rw [hb] at hc
@@ -267,7 +269,9 @@ theorem simplifyCore_fun (me : Event) (h : ∀ p ∈ me, selfIntervened p.1 = fa
                 have a2 := hredkeys _ hp
                 simp only at a1 a2
                 rw [a1] at a2; cases a2
-              · have := assoc_unique _ (err_keysNodup_reducePlain _ [] (by simp [KeysNodup])) k _ _ hp hp'
+              · have := assoc_unique _ (by
+                  rw [dropNone_keys]
+                  exact err_keysNodup_reducePlain _ [] (by simp [KeysNodup])) k _ _ hp hp'
                 simp only [List.cons.injEq] at this
                 exact this.1
 
@@ -459,16 +463,27 @@ theorem iterVars_sub_sumSafe (q : Expr) (R : List Var) (hq : TrDsl.isZero q = fa
 * every graph vertex is bound once in the simplified event (instead of `DstarOneWorld`: second final check),
 * the vertex of an outcome that is also the vertex of a condition occurs in `Q` (instead of `OutcomeNotCondition`:
   fifth final check). -/
-theorem line4C_ok_of_cover (target : MG Name) (ds : List Domain) (o c : Event) (D : List Var) (dstar : Event)
-    (dNames : List Name) (q : Expr) (simplified : Event)
-    (hfacts : DstarFacts target o D dstar dNames)
+theorem line4C_ok_of_cover (target : MG Name) (ds : List Domain) (o c : Event) (lk : Event) (D : List Var)
+    (dstar : Event) (dNames : List Name) (q : Expr) (simplified : Event)
+    (hrel : LookupOf o lk) (hfacts : DstarFacts target lk D dstar dNames)
     (hstrict : ∀ p ∈ o ++ c, p.2.isSome = true)
     (hsim : ∀ p ∈ simplified, ∃ r ∈ dstar, r.1.name = p.1.name ∧ r.2 = p.2)
     (hfun : ∀ p ∈ simplified, ∀ p' ∈ simplified, p.1.name = p'.1.name → p.2 = p'.2)
-    (hfound : ∀ p ∈ o, p.1 ∈ D)
+    (hfound : ∀ p ∈ lk, p.1 ∈ D)
     (hcov : ∀ p ∈ o, p.1.name ∈ eventNames c → Var.plain p.1.name ∈ Expr.iterVars q)
     (hqnz : TrDsl.isZero q = false) (hvocab : VocabOK target ds q) (hpop : PopsCoverNodes target ds) :
     ∃ a, line4C ds o c dNames q simplified = .ok a := by
+  -- the lookup keys carry the names and values of the outcomes
+  have hvalue : ∀ r ∈ dstar, ∀ i, r.2 = some i → ∃ p ∈ o, p.1.name = r.1.name ∧ p.2 = some i := by
+    intro r hr i hi
+    obtain ⟨p', hp', hn, hv, _⟩ := hfacts.value r hr i hi
+    obtain ⟨p, hp, hpn, hpv⟩ := hrel.of_lk p' hp'
+    exact ⟨p, hp, by rw [← hpn, hn], by rw [← hpv, hv]⟩
+  have hfoundo : ∀ p ∈ o, ∃ r ∈ dstar, r.1.name = p.1.name ∧ r.2 = p.2 := by
+    intro p hp
+    obtain ⟨p', hp', hn, hv⟩ := hrel.of_out p hp
+    obtain ⟨r, hr, hrn, hrv⟩ := hfacts.found p' hp' (hfound p' hp')
+    exact ⟨r, hr, by rw [hrn, hn], by rw [hrv, hv]⟩
   -- the expression
   have hden : TrDsl.isZero (TrDsl.sumSafe q ((diff' dNames (eventNames c)).map Var.plain)) = false :=
     isZero_sumSafe q _ hqnz
@@ -489,7 +504,7 @@ theorem line4C_ok_of_cover (target : MG Name) (ds : List Domain) (o c : Event) (
     obtain ⟨i, hi⟩ := Option.isSome_iff_exists.1 hsome
     obtain ⟨p', hp', hn', hv'⟩ := lastValue_some simplified _ i hi
     obtain ⟨r, hr, hrn, hrv⟩ := hsim p' hp'
-    obtain ⟨p0, hp0, hp0n, _, _⟩ := hfacts.value r hr i (by rw [hrv, hv'])
+    obtain ⟨p0, hp0, hp0n, _⟩ := hvalue r hr i (by rw [hrv, hv'])
     apply hnot
     exact (mem_eventNames (c ++ o) _).2 ⟨p0, List.mem_append_right _ hp0, by rw [hp0n, hrn, hn']⟩
   -- check 2
@@ -504,7 +519,7 @@ theorem line4C_ok_of_cover (target : MG Name) (ds : List Domain) (o c : Event) (
     have hsame := hfun p hp p' hp' hn'.symm
     rw [hv'] at hsame
     obtain ⟨r, hr, hrn, hrv⟩ := hsim p hp
-    obtain ⟨p0, hp0, hp0n, hp0v, _⟩ := hfacts.value r hr i (by rw [hrv, hsame])
+    obtain ⟨p0, hp0, hp0n, hp0v⟩ := hvalue r hr i (by rw [hrv, hsame])
     have : mem' p.2 (namesToValues o c p.1.name) = true := by
       rw [mem'_iff, hsame]
       simp only [namesToValues, mem_dedup', List.mem_map, List.mem_filter, decide_eq_true_eq]
@@ -579,7 +594,7 @@ theorem line4C_ok_of_cover (target : MG Name) (ds : List Domain) (o c : Event) (
       · exact Or.inr (iterVars_sub_sumSafe q _ hqnz _ (hcov p0 hp0 hc))
       · refine Or.inr (range_mem_iterVars_sumSafe q _ hqnz _ ?_)
         refine List.mem_map.2 ⟨p0.1.name, ?_, rfl⟩
-        obtain ⟨r, hr, hrn, _⟩ := hfacts.found p0 hp0 (hfound p0 hp0)
+        obtain ⟨r, hr, hrn, _⟩ := hfoundo p0 hp0
         simp only [diff', List.mem_filter, decide_eq_true_eq]
         exact ⟨(hfacts.mem_names _).2 ⟨r, hr, hrn⟩, hc⟩
     · obtain ⟨p0, hp0, rfl⟩ := List.mem_map.1 hp
@@ -611,12 +626,13 @@ theorem qCovers_of_disjoint (target : MG Name) (ds : List Domain) (o c : Event)
   simp only [bne_iff_ne, ne_eq] at this
   exact this hrn.symm
 
-/-- **Algorithm 3 never raises when every outcome is found and `Q` covers the shared vertices** — `ctfTR_total_of_parts`
-without `DstarOneWorld`, and with `OutcomeNotCondition` weakened to `QCovers` -/
+/-- **Algorithm 3 never raises when `Q` covers the shared vertices** — neither `DstarOneWorld` nor (after `fix:` f335599)
+`OutcomesFound` is needed: every outcome is found under its lookup key (`line2C_ok`); `OutcomeNotCondition` is weakened
+to `QCovers` -/
 theorem ctfTR_total_of_cover (target : MG Name) (ds : List Domain) (o c : Event)
     (hv : validateC target ds o c = .ok ()) (hwf : target.WF) (hds : ∀ d ∈ ds, d.graph.WF)
     (hdom : DomainsAgree target ds) (hplain : EventVarsPlain (o ++ c))
-    (hfound : OutcomesFound target o c = true) (hcov : QCovers target ds o c)
+    (hcov : QCovers target ds o c)
     (hpop : PopsCoverNodes target ds) (hq : QGood target ds o c) :
     ∀ err, ctfTR target ds o c ≠ .error err := by
   obtain ⟨hstrict, hone', _, hnodes, _, hac, _⟩ := validateC_facts target ds o c hv
@@ -628,24 +644,32 @@ theorem ctfTR_total_of_cover (target : MG Name) (ds : List Domain) (o c : Event)
     rcases List.mem_append.1 hp with h | h
     · exact List.mem_append_right _ h
     · exact List.mem_append_left _ h
-  obtain ⟨D, dstar, dNames, hD, h2, hDn, hfacts⟩ := line2C_ok target hwf o c
+  obtain ⟨lk, D, dstar, dNames, _, hrel, hfound', _, h2, hDn, hfacts⟩ := line2C_ok target hwf o c
     (fun p hp => hok p (List.mem_append_left _ hp)) (fun p hp => hok p (List.mem_append_right _ hp))
-  have hfound' : ∀ p ∈ o, p.1 ∈ D := by
-    unfold OutcomesFound at hfound
-    rw [hD] at hfound
-    intro p hp
-    exact (mem'_iff _ _).1 (List.all_eq_true.1 hfound p hp)
+    (fun p hp => (hplain p (List.mem_append_left _ hp)).1)
   -- D* is accepted by the unconditional validator
   obtain ⟨p0, hp0⟩ := List.exists_mem_of_ne_nil _ hone'
-  obtain ⟨q0, hq0, _, hq0v⟩ := hfacts.found p0 hp0 (hfound' p0 hp0)
+  obtain ⟨p0', hp0', _, hp0v⟩ := hrel.of_out p0 hp0
+  obtain ⟨q0, hq0, _, hq0v⟩ := hfacts.found p0' hp0' (hfound' p0' hp0')
   have hvU : validateU target ds dstar = .ok () := by
     apply validateU_dstar target ds o c hv dstar
     · intro h0; rw [h0] at hq0; cases hq0
     · intro q hq; exact (hfacts.var hDn q hq).1
-    · exact ⟨q0, hq0, by rw [hq0v]; exact hstrict p0 (List.mem_append_left _ hp0)⟩
+    · exact ⟨q0, hq0, by rw [hq0v, hp0v]; exact hstrict p0 (List.mem_append_left _ hp0)⟩
+    · intro q hq
+      cases hsi : selfIntervened q.1 with
+      | false => rfl
+      | true =>
+        exfalso
+        unfold selfIntervened at hsi
+        obtain ⟨i, hi, hin⟩ := List.any_eq_true.1 hsi
+        have hedge := (hfacts.var hDn q hq).2.2.2.2 i hi
+        rw [show i.name = q.1.name by simpa using hin] at hedge
+        exact hloop _ hedge
     · intro q hq i hi
-      obtain ⟨p, hp, hpn, hpv, _⟩ := hfacts.value q hq i hi
-      exact ⟨p, hp, hpn, hpv⟩
+      obtain ⟨p', hp', hpn', hpv', _⟩ := hfacts.value q hq i hi
+      obtain ⟨p, hp, hpn, hpv⟩ := hrel.of_lk p' hp'
+      exact ⟨p, hp, by rw [← hpn, hpn'], by rw [← hpv, hpv']⟩
   -- Algorithm 2 on D*
   have hcls : CrashClassU dstar = false := by
     have : Reflexive dstar = false := by
@@ -679,20 +703,20 @@ theorem ctfTR_total_of_cover (target : MG Name) (ds : List Domain) (o c : Event)
     obtain ⟨hqnz, hvocab⟩ := hq dstar dNames q simplified h2 hqs
     have hsim := simplify_output_values target dstar simplified (ctfTRu_simplified target ds dstar simplified q hqs)
     have hfun := ffEvent_answer_fun target hwf hloop ds dstar hffD q simplified hqs
-    exact line4C_ok_of_cover target ds o c D dstar dNames q simplified hfacts hstrict hsim hfun hfound'
+    exact line4C_ok_of_cover target ds o c lk D dstar dNames q simplified hrel hfacts hstrict hsim hfun hfound'
       (hcov dstar dNames q simplified h2 hqs) hqnz hvocab hpop)
   intro err herr
   rw [hr] at herr
   cases herr
 
-/-- **`DstarOneWorld` is not needed**: Algorithm 3 never raises after validation when every outcome is found in the
-ancestral components under its own name and no outcome shares its vertex with a condition -/
+/-- **neither `OutcomesFound` nor `DstarOneWorld` is needed**: Algorithm 3 never raises after validation when no outcome
+shares its vertex with a condition (arbitrary domain distributions) -/
 theorem ctfTR_total_without_oneWorld (target : MG Name) (ds : List Domain) (o c : Event)
     (hv : validateC target ds o c = .ok ()) (hwf : target.WF) (hds : ∀ d ∈ ds, d.graph.WF)
     (hdom : DomainsAgree target ds) (hplain : EventVarsPlain (o ++ c))
-    (hfound : OutcomesFound target o c = true) (hdisj : OutcomeNotCondition o c = true) :
+    (hdisj : OutcomeNotCondition o c = true) :
     ∀ err, ctfTR target ds o c ≠ .error err :=
-  ctfTR_total_of_cover target ds o c hv hwf hds hdom hplain hfound (qCovers_of_disjoint target ds o c hdisj)
+  ctfTR_total_of_cover target ds o c hv hwf hds hdom hplain (qCovers_of_disjoint target ds o c hdisj)
     (popsCover_of_validateC target ds o c hv)
     (qGood_holds target ds o c hv hwf hds (fun d hd => (hdom d hd).2) hplain)
 
